@@ -347,7 +347,7 @@ func rep3(o sv.Op, a, b byte, n int) []byte {
 // selfTest runs the facts through the model alone.
 func selfTest() (int, []string) {
 	var bad []string
-	fs := facts()
+	fs := append(facts(), budgetFacts()...)
 	for _, f := range fs {
 		m := sv.Run(f.code, specStepLimit)
 		got := "FAULT"
